@@ -542,7 +542,7 @@ func vhRetrieve(maxKids int, deep bool) {
 	if deep {
 		sp.AllowMissingAttributes = vFlag("allowMissingAttributes")
 	}
-	if vFlag("earlier-rejected-response") {
+	if !deep && vFlag("earlier-rejected-response") { // (quick harness only: the deep one spends its paths on message shapes)
 		// the process has just turned down another response — one whose conditions carried OneTimeUse and a
 		// ProxyRestriction, rejected late (no AttributeStatement): nothing of it may show in the next summary
 		// (built from the SP's own configuration values and constants so that it takes one path to the late rejection)
